@@ -40,9 +40,9 @@ type Entry struct {
 	// NewBuffer for sorting etc.
 	NewGenericBuffer func(rows any, opts ...parquet.RowGroupOption) (parquet.RowGroup, error)
 	// instance handles for histories of calls on one writer / buffer (typed.go)
-	NewTypedWriter        func(w io.Writer, opts ...parquet.WriterOption) TypedWriter
-	NewTypedSortingWriter func(w io.Writer, sortRowCount int64, opts ...parquet.WriterOption) TypedWriter
-	NewTypedBuffer        func(opts ...parquet.RowGroupOption) TypedBuffer
+	NewTypedWriter        func(w io.Writer, opts ...parquet.WriterOption) StatefulWriter
+	NewTypedSortingWriter func(w io.Writer, sortRowCount int64, opts ...parquet.WriterOption) StatefulWriter
+	NewTypedBuffer        func(opts ...parquet.RowGroupOption) StatefulBuffer
 }
 
 var Catalog []*Entry
